@@ -237,7 +237,12 @@ def _nomalize_dt(
 ) -> DateTimeT:
     if isinstance(parsed, pendulum.DateTime):
         if issubclass(td, datetime.time):
-            return parsed.time().replace(tzinfo=parsed.tzinfo)
+            time = parsed.time().replace(tzinfo=parsed.tzinfo)
+            # The parser drops the UTC offset of a time-only string, recover it.
+            with contextlib.suppress(ValueError):
+                tzinfo = datetime.time.fromisoformat(val).tzinfo
+                time = time.replace(tzinfo=tzinfo or time.tzinfo)
+            return time
         if issubclass(td, datetime.datetime):
             return parsed
         if issubclass(td, datetime.date):
